@@ -166,13 +166,37 @@ class Sharing:
         """the initialiser of a reference local declared inside the region (`const std::vector<T> &loc = ord[tid];`), else None"""
         if b is None or b['k'] != 'ref' or b['d'] not in self.private:
             return None
-        if not self.f.decl(b['d']).get('ref'):
+        dd = self.f.decl(b['d'])
+        if not (dd.get('ref') or dd.get('ptr')):
             return None
         for n in walk(self.r.node):
             if n['k'] == 'decl':
                 for v in n['v']:
                     if v['d'] == b['d'] and v.get('init') is not None:
-                        return unwrap(v['init'])
+                        e = unwrap(v['init'])
+                        if dd.get('ptr'):
+                            # const T *p = X.data() / &X[0] / X.data() + k / q + k : the pointer stands for (a position in) the array X
+                            hops = 0
+                            while e is not None and hops < 6:
+                                hops += 1
+                                if e['k'] == 'call' and e.get('m') in ('data', 'begin') and e.get('obj') is not None:
+                                    return unwrap(e['obj'])
+                                if e['k'] == 'un' and e['op'] == '&' and unwrap(e['e'])['k'] == 'idx':
+                                    return unwrap(unwrap(e['e'])['b'])
+                                if e['k'] == 'bin' and e['op'] in ('+', '-'):
+                                    e = unwrap(e['x'])
+                                    continue
+                                if e['k'] == 'cond':
+                                    # lower ? nullptr : D[tid].data()
+                                    alt = [unwrap(e['x']), unwrap(e['y'])]
+                                    alt = [a for a in alt if a is not None and a['k'] != 'lit']
+                                    e = alt[0] if len(alt) == 1 else None
+                                    continue
+                                if e['k'] == 'ref':
+                                    return e
+                                return None
+                            return None
+                        return e
         return None
 
     def injective_map(self, base):
